@@ -212,7 +212,7 @@ def run_case(spec):
                 viol.append(V(site, 'not_psd', 'float32 init: learned matrix has eigenvalue %.3g' % lam.min(), tr))
             dev = np.abs(M32 - M64).max() / max(np.abs(M64).max(), 1e-300)
             stats['worst_f32_vs_f64'] = max(stats.get('worst_f32_vs_f64', 0.0), dev / 1e-3)
-            if mi == 1 and dev > 1e-3:
+            if mi == 1 and not dev <= 1e-3:
                 viol.append(V(site, 'not_projection_of_init', 'float32 init: after one iteration the result differs from the run started from the '
                               'double-precision copy of the same matrix by %.3g relative' % dev, tr))
             sigs.add((dsn, 'array_float32', mi, round(float(s32 / t), 3)))
@@ -262,7 +262,7 @@ def run_case(spec):
                   else:
                       res = np.abs(M - R).max() / max(np.abs(R).max(), 1e-300)
                       stats['worst_projection_residual'] = max(stats['worst_projection_residual'], res)
-                      if res > 1e-7:
+                      if not res <= 1e-7:
                           viol.append(V(site, 'not_projection_of_init', 'with one iteration the result differs from the alternating projection of the '
                                         '%s initial matrix onto {budget} and {PSD} by %.3g relative' % (ini, res), tr))
               if mi == 2:       # the same state reached by a second fit of the same object
